@@ -1,6 +1,6 @@
 From Coq Require Import ZArith List Bool Lia.
 From Arsenal Require Import Util.
-From Arsenal Require VamDev VamBlockList Vam VamInv VamInvMeta VamInvStep VamInvThm VamFailProps VamAcctThm VamBal VamBalThm VamFailBal VamInvUpd VamRefused.
+From Arsenal Require VamDev VamBlockList Vam VamInv VamInvMeta VamInvStep VamInvThm VamFailProps VamAcctThm VamBal VamBalThm VamFailBal VamInvUpd VamRefused VamDefrag VamKindThm VamDefragErr.
 From Arsenal Require Import SyncMem SyncMemProofs Budget BudgetProofs.
 Import ListNotations.
 Open Scope Z_scope.
@@ -102,4 +102,24 @@ Theorem C10_allocator_failed_create_pool_same_memory : forall c v ty flags block
   VamInvUpd.mems_same (m_mems (v_m v)) (m_mems (v_m v')) /\ VamRefused.pools_same v v'.
 Proof. intros c v ty flags blockSize minB maxB minAlign f v' code calls Hc. exact (VamRefused.failed_create_pool_same_memory c Hc v ty flags blockSize minB maxB minAlign f v' code calls). Qed.
 Print Assumptions C10_allocator_failed_create_pool_same_memory.
+(* Defragmentation entry points.  Only BeginDefragmentation can return an error (bad arguments: negative limits,
+   both algorithm flags, a linear pool), and then the allocator state is literally the state before: Allocation
+   objects, pools, block lists, dedicated lists, device memory objects, budget, resources, the run - all equal, no
+   driver call.  BeginDefragPass, EndDefragPass and Finish have no error result at all, for any state and any fault
+   oracle: a vkMapMemory that fails while a move is committed makes the planner try elsewhere and the call still
+   returns its moves (no temporary of a refused attempt ever exists). *)
+Theorem C10_allocator_defrag_error_same : forall c v run G o f v' run' code calls dr,
+  VamAcctThm.cfg_acct c -> VamKindThm.reachDK c v run G ->
+  Vam.dstep c v run o f = (v', run', RErr code, calls, dr) ->
+  v_tab v' = v_tab v /\ v_pools v' = v_pools v /\ v_lists v' = v_lists v /\ v_ded v' = v_ded v /\
+  v_global v' = v_global v /\ m_mems (v_m v') = m_mems (v_m v) /\ m_bud (v_m v') = m_bud (v_m v) /\
+  m_res (v_m v') = m_res (v_m v) /\ m_next (v_m v') = m_next (v_m v) /\ run' = run /\ calls = nil.
+Proof. intros c v run G o f v' run' code calls dr Ha. exact (VamDefragErr.dstep_error_same c Ha v run G o f v' run' code calls dr). Qed.
+Print Assumptions C10_allocator_defrag_error_same.
+
+Theorem C10_allocator_no_error_after_begin : forall c v run o f v' run' r calls dr,
+  Vam.dstep c v run o f = (v', run', r, calls, dr) ->
+  (forall flags pool mb ma, o <> DBegin flags pool mb ma) -> forall code, r <> RErr code.
+Proof. exact VamDefragErr.no_error_after_begin. Qed.
+Print Assumptions C10_allocator_no_error_after_begin.
 End Allocator.
